@@ -268,17 +268,17 @@ Qed.
 
 Lemma outside_domain_refused b (sc : scene RNum) slice (alt lat lon tas h : R) :
   out_of (sc_levels sc) (@level RNum alt) \/ out_of (sc_lats sc) lat \/ out_of (sc_lons sc) lon ->
-  forall x, @ground_speed RNum b sc slice alt lat lon tas h <> GsOk x.
+  forall x, @ground_speed RNum b sc slice alt lat lon tas h <> @GsOk RNum x.
 Proof.
   intros Ho x. unfold ground_speed.
-  destruct (alt_out_of_range alt); [discriminate|].
+  destruct (@alt_out_of_range RNum alt); [discriminate|].
   destruct (nth_error (sc_u sc) slice) as [tu|]; [|discriminate].
   destruct (nth_error (sc_v sc) slice) as [tv|]; [|discriminate].
   rewrite (interp3_outside _ _ _ tu _ _ _ Ho). discriminate.
 Qed.
 
 Lemma too_high_refused b (sc : scene RNum) slice (alt lat lon tas h : R) :
-  25000 < alt -> @ground_speed RNum b sc slice alt lat lon tas h = GsAltRange.
+  25000 < alt -> @ground_speed RNum b sc slice alt lat lon tas h = @GsAltRange RNum.
 Proof.
   intros H. unfold ground_speed, alt_out_of_range, c_alt_max. rnum.
   replace (Rltb (25000 / 1) alt) with true; [reflexivity|].
@@ -309,9 +309,9 @@ Qed.
 Lemma uniform_field_pipeline b (sc : scene RNum) slice (alt lat lon tas h : R) tu tv cu cv (x : R) :
   nth_error (sc_u sc) slice = Some tu -> nth_error (sc_v sc) slice = Some tv ->
   uniform tu cu -> uniform tv cv ->
-  @ground_speed RNum b sc slice alt lat lon tas h = GsOk x -> x = gsR b tas h cu cv.
+  @ground_speed RNum b sc slice alt lat lon tas h = @GsOk RNum x -> x = gsR b tas h cu cv.
 Proof.
-  intros Eu Ev Hu Hv. unfold ground_speed. destruct (alt_out_of_range alt); [discriminate|].
+  intros Eu Ev Hu Hv. unfold ground_speed. destruct (@alt_out_of_range RNum alt); [discriminate|].
   rewrite Eu, Ev.
   destruct (interp3 _ _ _ tu _ _ _) as [u|] eqn:E1; [|discriminate].
   destruct (interp3 _ _ _ tv _ _ _) as [v|] eqn:E2; [|discriminate].
@@ -320,20 +320,32 @@ Proof.
 Qed.
 
 (* a request inside the grid is answered (no spurious refusal) *)
+Lemma last_indep (xs : list R) a b : xs <> [] -> last xs a = last xs b.
+Proof.
+  induction xs as [|x r IH]; intros H; [contradiction|].
+  destruct r as [|y r']; [reflexivity|]. simpl in *. apply IH. discriminate.
+Qed.
+
+Lemma bracket_cons a b r q :
+  bracketR (a :: b :: r) q =
+  if Rleb a q && Rleb q b then Some (O, a, b)
+  else match bracketR (b :: r) q with Some (i, x0, x1) => Some (S i, x0, x1) | None => None end.
+Proof. reflexivity. Qed.
+
 Lemma bracket_inside : forall xs a q, xs <> [] -> a <= q -> q <= last xs a ->
   exists i x0 x1, bracketR (a :: xs) q = Some (i, x0, x1).
 Proof.
   induction xs as [|b r IH]; intros a q Hne Ha Hl; [contradiction|].
-  simpl. rnum. destruct (Rleb a q && Rleb q b) eqn:E; [eauto|].
-  assert (Hbq : b <= q).
-  { apply andb_false_iff in E. destruct E as [E|E].
-    - apply Rleb_false in E. lra.
-    - apply Rleb_false in E. lra. }
+  rewrite bracket_cons. destruct (Rleb a q && Rleb q b) eqn:E; [eauto|].
+  assert (Hbq : b < q).
+  { apply andb_false_iff in E. destruct E as [E|E]; apply Rleb_false in E; lra. }
   destruct r as [|c r'].
-  - simpl in Hl. apply andb_false_iff in E. exfalso. destruct E as [E|E]; apply Rleb_false in E; lra.
-  - destruct (IH b q) as (i & x0 & x1 & Hb); [discriminate|exact Hbq| |].
-    + simpl in Hl |- *. exact Hl.
-    + change (@bracket RNum (b :: c :: r') q) with (bracketR (b :: c :: r') q). rewrite Hb. eauto.
+  - simpl in Hl. lra.
+  - destruct (IH b q) as (i & x0 & x1 & Hb); [discriminate|lra| |].
+    + rewrite (last_indep (c :: r') b a) by discriminate. exact Hl.
+    + match goal with |- exists _ _ _, match ?X with _ => _ end = _ =>
+        assert (HX : X = Some (i, x0, x1)) by exact Hb; rewrite HX end.
+      eauto.
 Qed.
 
 (* ---- non-vacuity examples ---- *)
